@@ -210,8 +210,10 @@ pub fn run_direct(s: &Script, st: &mut RStats, san: bool) -> Option<Complaint> {
     // std shim at the moment the ring yields it. The ring result must equal
     // what the sync API returns there (incl. ENOSPC, file unchanged).
     let mut twin: Option<Direct> = None;
-    if s.cfg.capacity.is_some() {
-        st.inc("capacity_scripts");
+    if s.cfg.capacity.is_some() || s.cfg.io_err > 0.0 {
+        if s.cfg.capacity.is_some() {
+            st.inc("capacity_scripts");
+        }
         let t = Direct::new(&s.cfg);
         let r: std::io::Result<()> = t.entered(|| {
             for i in 0..s.nfiles {
@@ -226,6 +228,34 @@ pub fn run_direct(s: &Script, st: &mut RStats, san: bool) -> Option<Complaint> {
             return fail("setup", 0, format!("twin setup failed: {e}"));
         }
         twin = Some(t);
+    }
+    // fault knob switched on only after the setup (the setup itself must succeed)
+    if s.cfg.io_err > 0.0 {
+        st.inc("io_error_scripts");
+        real.fs.lock().unwrap().io_error_probability = s.cfg.io_err;
+        if let Some(t) = &twin {
+            t.fs.lock().unwrap().io_error_probability = s.cfg.io_err;
+        }
+    }
+    // read-only and write-only handle per file
+    let mut mfiles: Vec<(sfs::File, sfs::File)> = vec![];
+    let open_modes = |p: &str| -> std::io::Result<(sfs::File, sfs::File)> {
+        Ok((
+            sfs::OpenOptions::new().read(true).open(p)?,
+            sfs::OpenOptions::new().write(true).open(p)?,
+        ))
+    };
+    if s.cfg.rw_modes {
+        st.inc("access_mode_scripts");
+        for i in 0..s.nfiles {
+            match real.entered(|| open_modes(&file_path(i))) {
+                Ok(p) => {
+                    mfiles.push(p);
+                    m.open_modes(i);
+                }
+                Err(e) => return fail("setup", 0, format!("mode handles: {e}")),
+            }
+        }
     }
     let mut rings: Vec<IoUring> = vec![];
     let mut zombies: Vec<IoUring> = vec![];
@@ -292,10 +322,24 @@ pub fn run_direct(s: &Script, st: &mut RStats, san: bool) -> Option<Complaint> {
                     continue;
                 }
                 let direct = is_direct(*flag) && s.cfg.dio_align.is_some();
+                let mode = if s.cfg.rw_modes && !direct { *flag & (RDONLY | WRONLY) } else { 0 };
                 let fd_of = |file: usize| {
                     let i = file.min(last_fd.len() - 1);
-                    types::Fd(if direct { direct_fd[i] } else { last_fd[i] })
+                    types::Fd(if direct {
+                        direct_fd[i]
+                    } else if mode & RDONLY != 0 && i < mfiles.len() {
+                        mfiles[i].0.as_raw_fd()
+                    } else if mode & WRONLY != 0 && i < mfiles.len() {
+                        mfiles[i].1.as_raw_fd()
+                    } else {
+                        last_fd[i]
+                    })
                 };
+                if mode != 0 {
+                    st.inc("sqe:access_mode_handle");
+                }
+                // zero-length op with a NULL buffer (the kernel accepts (NULL, 0))
+                let null = *flag & NULLPTR != 0;
                 let align = if direct { s.cfg.dio_align } else { None };
                 if direct {
                     st.inc("sqe:direct");
@@ -304,7 +348,8 @@ pub fn run_direct(s: &Script, st: &mut RStats, san: bool) -> Option<Complaint> {
                 let sqe = match kind {
                     SqKind::Read { file, off, n } => {
                         let mut b = Buf::new(vec![SENTINEL; *n as usize], true, align);
-                        let e = opcode::Read::new(fd_of(*file), b.ptr(), *n)
+                        let p = if null && *n == 0 { std::ptr::null_mut() } else { b.ptr() };
+                        let e = opcode::Read::new(fd_of(*file), p, *n)
                             .offset(*off)
                             .build();
                         newbuf = Some(b);
@@ -312,7 +357,8 @@ pub fn run_direct(s: &Script, st: &mut RStats, san: bool) -> Option<Complaint> {
                     }
                     SqKind::Write { file, off, n, key } => {
                         let mut b = Buf::new(payload(*key, *n), false, align);
-                        let e = opcode::Write::new(fd_of(*file), b.ptr() as *const u8, *n)
+                        let p = if null && *n == 0 { std::ptr::null() } else { b.ptr() as *const u8 };
+                        let e = opcode::Write::new(fd_of(*file), p, *n)
                             .offset(*off)
                             .build();
                         newbuf = Some(b);
@@ -509,6 +555,21 @@ pub fn run_direct(s: &Script, st: &mut RStats, san: bool) -> Option<Complaint> {
                             exp.results = vec![sync_res];
                         }
                     }
+                    if let (Some(t), SqKind::Fsync { file }) = (&twin, &inf.e.kind) {
+                        let closed_ebadf = exp.undetermined_closed && res == EBADF;
+                        if !inf.cancelled && inf.fixed.is_none() && inf.e.fd_gen.is_some() && !closed_ebadf {
+                            let p = file_path(*file);
+                            let sync_res = match t.entered(|| open_rw(&p).and_then(|f| f.sync_all())) {
+                                Ok(()) => 0,
+                                Err(_) => -5,
+                            };
+                            st.inc("twin_fsync_checks");
+                            exp.results = vec![sync_res];
+                        }
+                    }
+                    if exp.mode_denied && res == EBADF {
+                        st.inc("cqe:access_mode_ebadf");
+                    }
                     if res == ENOSPC {
                         st.inc("cqe:enospc");
                     }
@@ -576,11 +637,8 @@ pub fn run_direct(s: &Script, st: &mut RStats, san: bool) -> Option<Complaint> {
                             }
                             SqKind::Write { .. } => st.inc("cqe:write_ok"),
                             SqKind::Fsync { file } => {
+                                let _ = file;
                                 st.inc("cqe:fsync_ok");
-                                if let Some(t) = &twin {
-                                    let p = file_path(*file);
-                                    let _ = t.entered(|| open_rw(&p).and_then(|f| f.sync_all()));
-                                }
                             }
                             SqKind::Cancel { .. } => {}
                         }
@@ -599,6 +657,13 @@ pub fn run_direct(s: &Script, st: &mut RStats, san: bool) -> Option<Complaint> {
                         if res == 0 {
                             retire(&mut bufs, &mut retired, *target, "cancel-cqe-observed", st);
                         }
+                    }
+                }
+                // the harness's own observations are not subject to fault knobs
+                if s.cfg.io_err > 0.0 {
+                    real.fs.lock().unwrap().io_error_probability = 0.0;
+                    if let Some(t) = &twin {
+                        t.fs.lock().unwrap().io_error_probability = 0.0;
                     }
                 }
                 // effects: files as seen through the std shim equal the model
@@ -641,6 +706,12 @@ pub fn run_direct(s: &Script, st: &mut RStats, san: bool) -> Option<Complaint> {
                     }
                 }
                 st.inc("effect_checks");
+                if s.cfg.io_err > 0.0 {
+                    real.fs.lock().unwrap().io_error_probability = s.cfg.io_err;
+                    if let Some(t) = &twin {
+                        t.fs.lock().unwrap().io_error_probability = s.cfg.io_err;
+                    }
+                }
                 // everything whose latest instant has passed had to be visible
                 let need = must.min(want);
                 if cqes.len() < need {
@@ -750,6 +821,10 @@ pub fn run_direct(s: &Script, st: &mut RStats, san: bool) -> Option<Complaint> {
                     let old = f.take();
                     real.entered(|| drop(old));
                 }
+                {
+                    let old = std::mem::take(&mut mfiles);
+                    real.entered(|| drop(old));
+                }
                 zombies.append(&mut rings);
                 let r: std::io::Result<()> = real.entered(|| {
                     for d in &s.depths {
@@ -775,6 +850,18 @@ pub fn run_direct(s: &Script, st: &mut RStats, san: bool) -> Option<Complaint> {
                     m.open_file(i);
                     if s.cfg.dio_align.is_some() {
                         m.open_direct(i);
+                    }
+                    if s.cfg.rw_modes {
+                        match real.entered(|| open_modes(&file_path(i))) {
+                            Ok(p) => {
+                                mfiles.push(p);
+                                m.open_modes(i);
+                            }
+                            Err(e) => {
+                                result = fail("setup", ai, format!("mode handles: {e}"));
+                                break 'acts;
+                            }
+                        }
                     }
                 }
                 m.now += 1_000_000;
@@ -826,6 +913,7 @@ pub fn run_direct(s: &Script, st: &mut RStats, san: bool) -> Option<Complaint> {
         // dependent only when writes overlap; compare when no two
         // outstanding writes were drained together)
         if result.is_none() {
+            real.fs.lock().unwrap().io_error_probability = 0.0;
             for fi in 0..s.nfiles {
                 let got = real.observe(&file_path(fi));
                 if let Obs::Confused(c) = got {
@@ -854,6 +942,7 @@ pub fn run_direct(s: &Script, st: &mut RStats, san: bool) -> Option<Complaint> {
         drop(zombies);
         drop(files);
         drop(dfiles);
+        drop(mfiles);
     });
     let _ = bufs.values().map(|b| b.is_read).count();
     drop(bufs);
@@ -936,7 +1025,11 @@ fn scenario_directed(_ctx: &Ctx, idx: u64) -> ScenarioOut {
     let mut out = ScenarioOut::default();
     let mut st = RStats::default();
     out.count("directed", 1);
-    let c = run_direct(s, &mut st, false);
+    let c = if name.starts_with("child:") {
+        run_in_child(s)
+    } else {
+        run_direct(s, &mut st, false)
+    };
     if let Some(c) = &c {
         out.violate(
             &c.class,
@@ -953,6 +1046,60 @@ fn scenario_directed(_ctx: &Ctx, idx: u64) -> ScenarioOut {
     out.sample = Some(json!({"kind":"directed","name":name,"script":s.to_json(),
         "verdict": if c.is_some() {"complaint"} else {"conforms"}}));
     out
+}
+
+/// Run a script in a child process (`fsmodel c18-child <file>`): used for
+/// inputs on which the code under test may abort the whole process (an abort
+/// is not a panic and cannot be caught in-process). A child that dies without
+/// reporting is a complaint of class `ring-abort`: the entries it had
+/// submitted never completed.
+fn run_in_child(s: &Script) -> Option<Complaint> {
+    let path = std::env::temp_dir().join(format!(
+        "fsmodel-c18-child-{}-{:x}.json",
+        std::process::id(),
+        vcore::digest_str(&s.canonical())
+    ));
+    if std::fs::write(&path, s.to_json().to_string()).is_err() {
+        panic!("cannot write child script");
+    }
+    let exe = std::env::current_exe().expect("current_exe");
+    let out = std::process::Command::new(exe).arg("c18-child").arg(&path).output();
+    let _ = std::fs::remove_file(&path);
+    let out = out.expect("spawn child");
+    let stdout = String::from_utf8_lossy(&out.stdout).to_string();
+    if let Some(l) = stdout.lines().find(|l| l.starts_with("CHILD-COMPLAINT ")) {
+        let rest = &l["CHILD-COMPLAINT ".len()..];
+        let (class, what) = rest.split_once(' ').unwrap_or((rest, ""));
+        return Some(Complaint {
+            class: class.to_string(),
+            at: 0,
+            what: what.to_string(),
+        });
+    }
+    if stdout.lines().any(|l| l == "CHILD-OK") && out.status.success() {
+        return None;
+    }
+    let stderr = String::from_utf8_lossy(&out.stderr);
+    Some(Complaint {
+        class: "ring-abort".into(),
+        at: 0,
+        what: format!(
+            "the process running the script died ({:?}) before its submitted entries completed: {}",
+            out.status,
+            stderr.lines().find(|l| !l.trim().is_empty()).unwrap_or("").chars().take(200).collect::<String>()
+        ),
+    })
+}
+
+pub fn child_main(args: &[String]) -> ! {
+    let txt = std::fs::read_to_string(args.first().map(|s| s.as_str()).unwrap_or("")).unwrap_or_default();
+    let s = Script::from_json(&serde_json::from_str(&txt).unwrap_or(Value::Null));
+    let mut st = RStats::default();
+    match run_direct(&s, &mut st, false) {
+        Some(c) => println!("CHILD-COMPLAINT {} {}", c.class, c.what),
+        None => println!("CHILD-OK"),
+    }
+    std::process::exit(0)
 }
 
 /// Fixed scripts run on every invocation.
@@ -1051,6 +1198,82 @@ pub fn directed() -> Vec<(&'static str, Script)> {
                 ],
             },
         ),
+        // ---- defect-hunting round (NOTES (g)) ----
+        // hunted C18-3: a ring fsync must behave like sync_all under io_error_probability
+        (
+            "fsync-under-io-error-probability",
+            Script {
+                cfg: Cfg {
+                    io_err: 1.0,
+                    ..Cfg::default()
+                },
+                depths: vec![2],
+                nfiles: 1,
+                acts: vec![
+                    RAct::Push {
+                        ring: 0,
+                        ud: 1,
+                        kind: SqKind::Fsync { file: 0 },
+                        flag: 0,
+                    },
+                    RAct::Submit { ring: 0 },
+                    RAct::Drain { ring: 0, max: None },
+                ],
+            },
+        ),
+        // hunted C18-2 / C10-9: the descriptor's access mode
+        (
+            "write-through-read-only-descriptor",
+            Script {
+                cfg: Cfg {
+                    rw_modes: true,
+                    ..Cfg::default()
+                },
+                depths: vec![4],
+                nfiles: 1,
+                acts: vec![
+                    RAct::Push {
+                        ring: 0,
+                        ud: 1,
+                        kind: SqKind::Write { file: 0, off: 0, n: 2, key: 25 },
+                        flag: RDONLY,
+                    },
+                    RAct::Push {
+                        ring: 0,
+                        ud: 2,
+                        kind: SqKind::Read { file: 0, off: 0, n: 4 },
+                        flag: WRONLY,
+                    },
+                    RAct::Submit { ring: 0 },
+                    RAct::Drain { ring: 0, max: None },
+                ],
+            },
+        ),
+        // hunted C18-4: (NULL, 0) buffers; run in a child process
+        (
+            "child:zero-length-null-buffer",
+            Script {
+                cfg: cfg(Lat::None),
+                depths: vec![4],
+                nfiles: 1,
+                acts: vec![
+                    RAct::Push {
+                        ring: 0,
+                        ud: 1,
+                        kind: SqKind::Write { file: 0, off: 0, n: 0, key: 0 },
+                        flag: NULLPTR,
+                    },
+                    RAct::Push {
+                        ring: 0,
+                        ud: 2,
+                        kind: SqKind::Read { file: 0, off: 0, n: 0 },
+                        flag: NULLPTR,
+                    },
+                    RAct::Submit { ring: 0 },
+                    RAct::Drain { ring: 0, max: None },
+                ],
+            },
+        ),
     ]
 }
 
@@ -1114,6 +1337,8 @@ pub fn run(ctx: &Ctx) -> ! {
             "inflight_at_crash",
             "crash_image_checks",
             "retired_buffers_checked",
+            "access_mode_scripts",
+            "cqe:access_mode_ebadf",
             "direct_io_scripts",
             "cqe:direct_read_ok",
             "cqe:direct_misaligned_einval",
@@ -1143,6 +1368,13 @@ pub fn run(ctx: &Ctx) -> ! {
     let mut rep = vcore::run_parallel(ctx, directed().len() as u64, RunOpts::default(), move |i| {
         scenario_directed(&c2, i)
     });
+    let c2 = ctx.clone();
+    rep.merge(vcore::run_parallel(
+        ctx,
+        crate::c18sim::directed().len() as u64,
+        RunOpts::default(),
+        move |i| crate::c18sim::scenario_directed(&c2, i),
+    ));
     let budget = ctx.pick(45.0, 400.0);
     let n_sim = ctx.pick(400u64, 3000);
     let c2 = ctx.clone();
